@@ -82,3 +82,35 @@ dproof!(d7_push_sym_result, {
     assert!(got.is_some() == !ks);
     core::mem::forget(ch);
 });
+
+pub fn is_ascii_model(s: &str) -> bool {
+    let b = s.as_bytes();
+    let mut i = 0;
+    let mut ok = true;
+    while i < b.len() {
+        if b[i] >= 0x80 {
+            ok = false;
+        }
+        i += 1;
+    }
+    ok
+}
+pub fn memchr_model(x: u8, text: &[u8]) -> Option<usize> {
+    let mut i = 0;
+    while i < text.len() {
+        if text[i] == x {
+            return Some(i);
+        }
+        i += 1;
+    }
+    None
+}
+
+#[kani::proof]
+#[kani::unwind(22)]
+#[kani::stub(str::is_ascii, is_ascii_model)]
+#[kani::stub(core::slice::memchr::memchr, memchr_model)]
+fn d8_fen_end_stubbed() {
+    let mut s = crate::src::KSrc;
+    crate::c12::fen_board_end::<_, 5>(&mut s);
+}
